@@ -122,7 +122,7 @@ theorem C14_first_request_any (size type : Nat) (field : Bytes) (p q : Nat) (loo
       by_cases h0 : type = tGetAttrReq
       · simp only [h0, if_true] at h
         cases h
-        refine ⟨by intro hh; rw [h0] at hh; simp [tGetAttrReq, tGetAllReq] at hh, fun _ => ?_⟩
+        refine ⟨by intro hh; rw [h0] at hh; exact absurd hh (by decide), fun _ => ?_⟩
         unfold processGetAttr
         split
         · right; rfl
